@@ -19,23 +19,55 @@ def units():
         Harness("time_with_leeway_exact", ["C11"], functions=fv,
                 desc="all now, all Durations d with now-d and now+d representable (precondition assumed, covered): accept iff exp >= now-d and nbf <= now+d"),
         Harness("time_with_zero_leeway_is_time", ["C11"], functions=fv),
+        Harness("oracle_duration_nanos_exact", ["C11"], desc="oracle/model helper: Duration -> nanoseconds is secs*10^9+nanos for all Durations (one SAT multiplier-equivalence proof, ~100 s)"),
         Harness("has_expiry_exact", ["C11"], functions=fv),
     ]
     for v in ("for_subject", "from_issuer", "for_audience"):
         hv.append(Harness(f"{v}_len_eq", ["C11"], complete=False, bound=STR_BOUND + "; equal lengths 0,1,2,3", functions=fv))
-        hv.append(Harness(f"{v}_len_ne", ["C11"], complete=False, bound=STR_BOUND + "; length pairs (0,1),(1,0),(2,3),(3,2),(1,3),(3,0)", functions=fv))
+        hv.append(Harness(f"{v}_absent_or_len_ne", ["C11"], complete=False, bound=STR_BOUND + "; claim absent, or length pairs (0,1),(1,0),(2,3),(3,2),(1,3)", functions=fv))
     hv += [
         Harness("registered_claims_new_exact", ["C11"], functions=fv, desc="all now, d with now+d representable: exp == now+d, nbf == iat == now, strings absent"),
         Harness("registered_claims_now_exact", ["C11"], functions=fv),
-        Harness("builders_set_exactly_their_field", ["C11"], complete=False, bound="argument / previous strings of 0..=3 ASCII bytes (3 length pairs)", functions=fv),
+        Harness("builders_set_exactly_their_field", ["C11"], complete=False, bound="argument / previous strings of 0..=3 ASCII bytes (6 method x length configurations)", functions=fv),
         Harness("built_claims_pass_their_validators", ["C11"], complete=False, bound="strings of 1..=2 ASCII bytes", functions=fv),
         Harness("composition_time_expiry_issuer", ["C11"], complete=False, bound="iss of 1 ASCII byte (absent/present); timestamps unbounded", functions=fv,
                 desc="Time::valid_at(now).and_then(HasExpiry).and_then(FromIssuer(\"a\")) accepts iff all three do"),
         Harness("canary_validators", ["C11"], expect="fail"),
     ]
     common = dict(members=["paseto-core", "paseto-json"], package="paseto-json", patches={"jiff": "models/jiff"},
-                  kani_flags=["--no-assertion-reach-checks"], harness_path="verif")
+                  kani_flags=["--no-assertion-reach-checks"], harness_path="verif",
+                  # paseto-json forbids unsafe code: the one unsafe harness step (ASCII bytes -> String of concrete length) is in a helper crate
+                  extra_files=[("verif-models/vhelp", "units/u5_json/vhelp")],
+                  dev_deps={"paseto-json/Cargo.toml": ['vhelp = { path = "../verif-models/vhelp" }']})
+    fs = [f"{L}::{f}" for f in ("<RegisteredClaims as Serialize>::serialize", "RegisteredClaimFieldVisitor::{visit_str,visit_bytes}", "<RegisteredClaimField as Deserialize>::deserialize",
+                                "RegisteredClaimsVisitor::visit_map", "<RegisteredClaims as Deserialize>::deserialize", "<Writer as io::Write>::{write,flush}",
+                                "<Json<T> as Footer>::decode (empty footer arm)")]
+    masks = [f"p{m:03d}" for m in range(0, 128, 8)]
+    MB = "string claims of 0..=3 arbitrary ASCII bytes (length fixed per presence pattern, contents symbolic); timestamps anywhere in jiff's range"
+    hs = [Harness(f"serialize_exact_{m}", ["C14"], complete=False, bound=f"the 8 presence patterns {int(m[1:])}..{int(m[1:]) + 7} of the 128 (all 128 covered by the 16 harnesses); " + MB, functions=fs,
+                  desc="recording Serializer: exactly the present claims, declaration order, registered names, no null, strings byte for byte, timestamps in their own serde form")
+          for m in masks]
+    hs += [Harness(f"roundtrip_{m}", ["C14"], complete=False, bound=f"presence patterns {int(m[1:])}..{int(m[1:]) + 7}; " + MB, functions=fs,
+                   desc="deserialize(events emitted by serialize(c)) == c field by field") for m in masks]
+    SB = "maps of exactly {n} members; keys symbolic over the 7 registered names and 5 unregistered ones (same length, prefix, extension, other case, empty), delivered as str or bytes; values symbolic: null / ASCII string of <= 3 bytes / timestamp (any i128) / number"
+    for n in range(5):
+        hs.append(Harness(f"deserialize_script_n{n}", ["C14"], complete=False, bound=SB.format(n=n), functions=fs, tier="quick" if n < 4 else "thorough", timeout=1800,
+                          desc="scripted MapAccess: last-wins values, unknown members ignored but consumed, wrong type / repeated non-null claim = error (duplicate_field), MapAccess protocol"))
+    hs += [
+        Harness("deserialize_order_independent_n3", ["C14"], complete=False, bound="3 members with pairwise different keys, all 6 orders (reversal + rotation)", functions=fs, timeout=1800),
+        Harness("field_names_exact", ["C14"], complete=False, bound="one member; key = every ASCII string of length 0..=4", functions=fs),
+        Harness("writer_forwards_every_byte", ["C14"], complete=False, bound="buffers of 0..=4 bytes", functions=fs),
+        Harness("footer_empty_rejected", ["C14"], functions=fs),
+        Harness("canary_serde", ["C14"], expect="fail"),
+    ]
     return [
+        Unit(name="u6_serde", inject=[(L, "units/u5_json/serde.rs")], harnesses=hs,
+             assumptions=[JIFF_ASSUMPTION + "; Timestamp's Serialize/Deserialize are inverse on the range (model: one opaque serialize_i128/deserialize_i128 call)",
+                          "THIRD-PARTY, ASSUMED: serde_json maps JSON text to serde data-model events and back (objects <-> struct/map events, strings byte for byte incl. escapes, null <-> none/unit, "
+                          "exactly one value per key); jiff maps RFC 3339 text to Timestamp and back at ns resolution. Nothing about JSON or RFC 3339 TEXT is checked here",
+                          "serde_core's own impls (Option<T>, String, IgnoredAny, PhantomData seeds) are compiled as they are"],
+             trusted=["serde_core 1.0.221 (Deserialize for Option/String/IgnoredAny, forward_to_deserialize_any), alloc::string::String as compiled by Kani"],
+             **common),
         Unit(name="u5_validators", inject=[(L, "units/u5_json/validators.rs")], harnesses=hv,
              assumptions=[JIFF_ASSUMPTION,
                           "precondition of the leeway validator (from the property): now - leeway and now + leeway are representable Timestamps; "
